@@ -46,6 +46,22 @@ CLAIMS = {
          "static: a lock-discipline model (paths of LOCK/UNLOCK/RD/WR atoms) is EXTRACTED from the current bloom/filter.go with go/ast and TLC checks every interleaving of K=2,3 threads for accesses outside the mutex, lock leaks and self-deadlock (BloomConc.tla); dynamic: -race build, up to 32 goroutines on one shared tiny filter, every call ticketed; TLC trace validation decides 'no insertion lost / membership after completed insertion' with BIP37 indices, and TLC searches for a linearization of small rounds with reload/unload (Lin_BloomConc.tla); race-detector reports are events no action accepts",
          "model checking of all interleavings of the extracted lock discipline plus trace validation / linearization search of recorded concurrent executions",
          "Go memory model not specified; dynamic part observes only the schedules that occurred"),
+ "C04": ("DESIGN.md §4 C04",
+         "TLA+ spec HDKeys (BIP32 CKDpriv/CKDpub, master generation, neutering, serialisation; modular addition on limb naturals, crypto primitives as logged facts); derivation histories (all paths over the boundary index alphabet with a neutered twin at every level, depth-255 chains, planner-found children with leading-zero scalars, all seed lengths) executed on the real code and every resulting key judged by TLC trace validation",
+         "TLC trace validation of recorded derivation histories against the BIP32 definition; design-level model check of the key-pool heap model",
+         "HMAC-SHA512 / secp256k1 / hashes are environment functions"),
+ "C05": ("DESIGN.md §4 C05",
+         "ParseSpec in HDKeys (Base58 -> exactly 82 bytes -> checksum -> scalar range / point validity -> fields); every produced key is re-parsed, plus every single-bit / single-byte corruption with and without recomputed checksum, boundary scalars, off-curve points, parity bytes, wrong lengths; TLC decides accept/reject, value and canonical re-serialisation",
+         "TLC trace validation against the strict parser definition",
+         "as C04"),
+ "C06": ("DESIGN.md §4 C06",
+         "WifString / WifDecode in HDKeys; scalars with 1..31 leading zero bytes x compression x nets, single-bit corruptions, all 256 marker bytes and decoded lengths 0..45 with valid checksums, non-ASCII twins; TLC trace validation",
+         "TLC trace validation against the WIF definition",
+         "as C04"),
+ "C15": ("DESIGN.md §4 C15",
+         "KeyPool heap model (which operations share byte buffers) model-checked for independence, with the sharing-Neuter variant as negative control; the same module generates all operation histories of bounded depth on a pool of keys; they are replayed on real keys with EVERY live key observed after EVERY step; TLC trace validation checks each call's postcondition, the frame condition (other keys unchanged incl. a derivation probe) and that zeroing erased the four captured buffers",
+         "model checking of the heap model plus TLC trace validation of enumerated and random histories",
+         "verif hook VerifBuffers exposes the four backing slices"),
 }
 
 NOT_YET = "check not built yet in this round; see DESIGN.md for the planned TLA+ model"
